@@ -453,7 +453,7 @@ def jobs(check, mirror, rb, known_pred):
 # ----------------------------------------------------------------------------- the offset of a named zone at a wall-clock time
 # get_zone_offset (feel/src/temporal/mod.rs) asks chrono-tz for the instant a wall-clock time denotes in the zone and derives the offset
 # from it. The zone rules are an uninterpreted function o(zone, UTC instant) -> seconds east; chrono's API is modelled by its contract
-# over that function (a local time maps to the instants t with t + o(t) = wall clock: one, two - the earlier is taken - or none).
+# over that function (a local time maps to the instants t with t + o(t) = wall clock: one or none; times that occur twice are outside the property and discarded by chrono 0.4).
 
 
 def zone_offset_job(check, mirror, rb, crate, U):
@@ -463,10 +463,10 @@ def zone_offset_job(check, mirror, rb, crate, U):
     from mir.models import deref
     from mir.parser import MirUnsupported
     check.bounds.append("M/zone_offset: get_zone_offset for any zone name (known or unknown to the database), years 1..9999, any valid date and time; the zone rules are an uninterpreted "
-                        "function of the UTC instant (offsets within +-16 h), a wall-clock time denotes one, two or no instant")
+                        "function of the UTC instant (offsets within +-16 h), a wall-clock time denotes one instant or none (times that occur twice are outside the property)")
     I = z3.IntSort()
     o = z3.Function("zone_rule_offset", I, I, I)
-    S_2021 = (18628 * 86400, 18716 * 86400 + 3600, 18931 * 86400 + 3600)   # 2021-01-01T00:00Z, 2021-03-28T01:00Z, 2021-10-31T01:00Z
+    S_2021 = (18628 * 86400, 18714 * 86400 + 3600, 18931 * 86400 + 3600)   # 2021-01-01T00:00Z, 2021-03-28T01:00Z, 2021-10-31T01:00Z
 
     def setup(ex, st):
         zid = ex.fresh_int(st, "u8", "zoneid")
@@ -490,7 +490,9 @@ def zone_offset_job(check, mirror, rb, crate, U):
             apps.append((t, v))
             ex.assume(st, z3.And(v >= -57600, v <= 57600))
             return v
-        ex.assume(st, z3.And(kind.e <= 2, z3.Implies(kind.e <= 1, t1 + rule(t1) == W), z3.Implies(kind.e == 1, z3.And(t2 + rule(t2) == W, t1 < t2))))
+        # wall-clock times that occur twice are outside the property ("away from ambiguous local times"): chrono 0.4's LocalResult<Date>::and_hms_nano_opt discards
+        # them anyway (native: null), so the Ambiguous arm of the code is never entered; a wall-clock time denotes one instant or none
+        ex.assume(st, z3.And(z3.Or(kind.e == 0, kind.e == 2), z3.Implies(kind.e == 0, t1 + rule(t1) == W)))
         inputs = dict(zoneid=zid.e, year=y.e, month=mo.e, day=d.e, hour=h.e, minute=mi.e, second=s_.e, nano=n.e, zone_known=known, local_result=kind.e,
                       _W=W, _t1=t1, _t2=t2, _apps=apps)
 
@@ -583,14 +585,15 @@ def zone_offset_job(check, mirror, rb, crate, U):
 
     def prefer(v):
         t0, ts, te = S_2021
-        c = [v["year"] == 2021, v["zoneid"] == WARSAW, v["zone_known"], v["nano"] == 0]
+        # months 2..11: every instant the code or the oracle can ask the rules about then lies inside 2021, where the rules are pinned to Warsaw's
+        c = [v["year"] == 2021, v["month"] >= 2, v["month"] <= 11, v["zoneid"] == WARSAW, v["zone_known"], v["nano"] == 0]
         for t, val_ in v["_apps"]:
             c.append(z3.Implies(z3.And(t >= t0, t < t0 + 365 * 86400), val_ == z3.If(z3.And(t >= ts, t < te), 7200, 3600)))
         W = v["_W"]
         gap = z3.And(W >= ts + 3600, W < ts + 7200)
         fold = z3.And(W >= te + 3600, W < te + 7200)
-        c.append(v["local_result"] == z3.If(gap, 2, z3.If(fold, 1, 0)))
-        c.append(z3.Implies(fold, z3.And(v["_t1"] == W - 7200, v["_t2"] == W - 3600)))
+        c.append(z3.Not(fold))
+        c.append(v["local_result"] == z3.If(gap, 2, 0))
         return z3.And(c)
 
     def desc(m, v):
@@ -604,6 +607,8 @@ def zone_offset_job(check, mirror, rb, crate, U):
         import datetime
         W = (datetime.date(2021, i["month"], i["day"]).toordinal() - datetime.date(1970, 1, 1).toordinal()) * 86400 + i["hour"] * 3600 + i["minute"] * 60 + i["second"]
         t0, ts, te = S_2021
+        if te + 3600 <= W < te + 7200:
+            return False, "%s is a wall-clock time that occurs twice: outside the property" % lit_
         if ts + 3600 <= W < ts + 7200:
             want = None
         else:
